@@ -149,6 +149,26 @@ def first_failure(ev):
     return "-"
 
 
+CALL_WHYS = ("legal-call-failed", "legal-call-panicked", "legal-handshake-failed", "runtime-panic", "undocumented-panic", "prep-failed", "hang",
+             "assertion-panic", "handshake-broken-by-cache", "server-aborted", "not-resumed", "seed-failed")
+
+
+def failure_for(why, ev):
+    """The failure that belongs to the rejected clause: for clauses about a failing call the first failing call,
+    for clauses about the wire / resumption only what the Handshake call itself reported (later calls of an
+    undocumented tail may legitimately fail and must not leak into the signature)."""
+    if why in CALL_WHYS:
+        return first_failure(ev)
+    for o in ev["ops"]:
+        if o["op"] == "Handshake":
+            if o["res"] in ("err", "panic"):
+                return "%s:%s:%s" % (o["op"], o["res"], re.sub(r"\d+", "N", txt(o["msg"]))[:90])
+            if o["res"] == "ok" and not ev["s_ok"]:
+                return "server:" + re.sub(r"\d+", "N", txt(ev["serr"]))[:90]
+            break
+    return "-"
+
+
 def ops_str(cd):
     return ",".join(o["op"] + ("(" + o["arg"] + ("*" if o.get("forge") else "") + ")" if o["arg"] else "") for o in cd["ops"])
 
